@@ -62,7 +62,7 @@ pub fn snap(c: &Chain) -> Snap {
     s.hist = c.hub_history();
     s.supply_b = c.token_supply(BSEI);
     s.supply_s = c.token_supply(STSEI);
-    for a in CAST.iter() {
+    for a in cast_all().iter() {
         let b = c.token_balance(BSEI, *a);
         if b > 0 {
             s.bal_b.insert(*a, b);
@@ -210,6 +210,7 @@ pub fn op_kind(op: &Op) -> &'static str {
             EnvOp::Donate(..) => "env.donate",
             EnvOp::NoRedel(..) => "env.noredel",
             EnvOp::NoUndel(..) => "env.noundel",
+            EnvOp::Migrate(..) => "env.migrate",
             EnvOp::Oracle(..) => "env.oracle",
             EnvOp::Swap(..) => "env.swap",
             EnvOp::Legacy(..) => "env.legacy",
@@ -365,6 +366,8 @@ pub struct StepCtx<'a> {
     pub ghost_completion: Option<&'a BTreeMap<u64, u64>>,
     /// allowance expirations as the owners' calls determine them: (token, owner, spender) → "h<height>" | "t<time>" | "n"
     pub ghost_allow: &'a BTreeMap<(Id, Id, Id), String>,
+    /// chain time of the last undelegation (or of the hub's instantiation) from the history
+    pub ghost_last_und: Option<u64>,
 }
 
 pub fn check_step(cx: &StepCtx) -> Vec<Violation> {
@@ -484,7 +487,7 @@ pub fn check_step(cx: &StepCtx) -> Vec<Violation> {
 
     // ---------------------------------------------------------------- C16: reward mirror
     if cx.envelope {
-        for a in CAST.iter() {
+        for a in cast_all().iter() {
             let tb = *post.bal_b.get(a).unwrap_or(&0);
             let rb = post.holders.get(a).map(|h| h.0).unwrap_or(0);
             if tb != rb {
@@ -554,7 +557,7 @@ pub fn check_step(cx: &StepCtx) -> Vec<Violation> {
             let (b, i, p) = s.holders.get(&a).cloned().unwrap_or((0, 0, 0));
             (s.rw.0 - i.min(s.rw.0)) * b + p
         };
-        for a in CAST.iter() {
+        for a in cast_all().iter() {
             // the query reports exactly the whole units of (global − index)·balance + pending
             if let Some(Some(q)) = post.accrued.get(a) {
                 if *q != owed(post, *a) / D {
@@ -565,7 +568,7 @@ pub fn check_step(cx: &StepCtx) -> Vec<Violation> {
         let is_claim = matches!(op, Op::Tx { call: Call::Reward(RewMsg::Claim(_)), .. });
         let g_moved = post.rw.0 != pre.rw.0;
         if !is_claim && !g_moved && !is_env(op) {
-            for a in CAST.iter() {
+            for a in cast_all().iter() {
                 if owed(pre, *a) != owed(post, *a) {
                     out.push(v("C15", "dues-moved-by-balance-change", format!("{}: what {} is owed changed {} → {} without an index update or claim", kind, a, owed(pre, *a), owed(post, *a))));
                     break;
@@ -574,7 +577,7 @@ pub fn check_step(cx: &StepCtx) -> Vec<Violation> {
         }
         if g_moved {
             let k = post.rw.0 - pre.rw.0.min(post.rw.0);
-            for a in CAST.iter() {
+            for a in cast_all().iter() {
                 let (b, _, _) = pre.holders.get(a).cloned().unwrap_or((0, 0, 0));
                 if owed(post, *a) != owed(pre, *a) + b * k {
                     out.push(v("C15", "accrual-not-proportional", format!("{}: holder {} with balance {} accrued {} for an index step {}", kind, a, b, owed(post, *a) as i128 - owed(pre, *a) as i128, k)));
@@ -599,7 +602,7 @@ pub fn check_step(cx: &StepCtx) -> Vec<Violation> {
         }
         if is_claim && ok {
             if let Op::Tx { sender, .. } = op {
-                for a in CAST.iter() {
+                for a in cast_all().iter() {
                     if a != sender && owed(pre, *a) != owed(post, *a) {
                         out.push(v("C15", "claim-changed-foreign-dues", format!("claim by {} changed what {} is owed", sender, a)));
                     }
@@ -932,7 +935,7 @@ pub fn check_step(cx: &StepCtx) -> Vec<Violation> {
             if let Some(user) = user {
                 let b = pre.batch.0;
                 let get = |s: &Snap, u: Id| s.reqs.get(&u).and_then(|r| r.iter().find(|x| x.0 == b)).map(|x| (x.1, x.2)).unwrap_or((0, 0));
-                for u in CAST.iter() {
+                for u in cast_all().iter() {
                     let (p, q) = (get(pre, *u), get(post, *u));
                     if *u != user && p != q {
                         out.push(v("C07", "foreign-claim-changed", format!("{} by {}: claim of {} in batch {} changed {:?} → {:?}", kind, user, u, b, p, q)));
@@ -969,7 +972,7 @@ pub fn check_step(cx: &StepCtx) -> Vec<Violation> {
         }
         if kind == "hub.withdraw" {
             if let Op::Tx { sender, .. } = op {
-                for u in CAST.iter() {
+                for u in cast_all().iter() {
                     if u != sender && pre.reqs.get(u) != post.reqs.get(u) {
                         out.push(v("C07", "withdraw-removed-foreign-claim", format!("withdraw by {} changed claims of {}", sender, u)));
                     }
@@ -1046,7 +1049,7 @@ pub fn check_step(cx: &StepCtx) -> Vec<Violation> {
 
     // ---------------------------------------------------------------- C01: matured claims funded, paid once
     {
-        let total: u128 = CAST.iter().map(|u| released_claims(post, *u)).sum();
+        let total: u128 = cast_all().iter().map(|u| released_claims(post, *u)).sum();
         if total > post.hub_bank {
             out.push(v("C01", "released-claims-above-balance", format!("{}: released claims {} > hub balance {}", kind, total, post.hub_bank)));
         }
@@ -1330,6 +1333,18 @@ pub fn check_step(cx: &StepCtx) -> Vec<Violation> {
     }
     if pre.legacy > 0 && pre.paused && !post.paused && post.legacy > 0 {
         out.push(v("C11", "unpaused-with-legacy-entries", format!("{} unpaused with {} legacy entries", kind, post.legacy)));
+    }
+
+    // ---------------------------------------------------------------- C09 / C08: the first unbond after the epoch period undelegates
+    // (the epoch clock is taken from the history of undelegations, not from the hub's own field)
+    if matches!(kind, "tok.send.unbond" | "tok.sendfrom.unbond") && ok {
+        if let Some(g) = cx.ghost_last_und {
+            let closed = post.hist.iter().any(|h| !pre.hist.iter().any(|x| x.id == h.id));
+            if post.time > g && post.time - g > pre.epoch && !closed {
+                out.push(v("C09", "not-undelegated-after-epoch:history", format!("{} at {} — {} after the last undelegation ({}), epoch period {} — did not undelegate the batch", kind, post.time, post.time - g, g, pre.epoch)));
+                out.push(v("C08", "not-undelegated-after-epoch:history", format!("{} at {} — {} after the last undelegation ({}), epoch period {} — did not undelegate the batch", kind, post.time, post.time - g, g, pre.epoch)));
+            }
+        }
     }
 
     // ---------------------------------------------------------------- C09: exits
